@@ -52,11 +52,12 @@ let anchors_ok (s : seqs) os oe ns ne (ops : op list) : bool =
   kept >= best
 
 (* C19: comparisons <= WORK_C * (N + M + 1) * (D + 1), D = size of the reported script *)
-let work_c = 6
+(* the constants are the proved ones: c19_myers_work_bound (6), c19_patience_work_bound (12) *)
+let work_c alg = if alg = "P" then 12 else 6
 
-let work_ok (ops : op list) os oe ns ne (cmps : int) : bool =
+let work_ok alg (ops : op list) os oe ns ne (cmps : int) : bool =
   let d = int_of_nat (deleted ops) + int_of_nat (inserted ops) in
-  cmps <= work_c * (max 0 (oe - os) + max 0 (ne - ns) + 1) * (d + 1)
+  cmps <= work_c alg * (max 0 (oe - os) + max 0 (ne - ns) + 1) * (d + 1)
 
 (* the quadratic optimum (lcs_len on unary numbers) is only evaluated on boxes
    of at most 100 000 cells; larger cases are covered by the other clauses *)
@@ -94,7 +95,7 @@ let clauses_raw h (impl : string) : (string * bool) list =
                else [])
             @ (if dlo = None && alg = "P" && small_box os oe ns ne then [ ("anchors_max", anchors_ok s os oe ns ne ops) ] else [])
             @ (if dlo = None && stack = "none" && (alg = "M" || alg = "P") then
-                 [ ("work_bound", work_ok ops os oe ns ne (int_of_string (get ih "cmps"))) ]
+                 [ ("work_bound", work_ok alg ops os oe ns ne (int_of_string (get ih "cmps"))) ]
                else [])
             @ (match dlo with
                | Some _ when stack = "none" ->
